@@ -17,7 +17,7 @@
                             the antiparallel branch of rotation_matrix_from_vectors
      hadd m ts ws           the whole call on targets ts                                                     *)
 From Coq Require Import String.
-From Coq Require Import List ZArith NArith QArith Qround Bool Reals.
+From Coq Require Import List ZArith NArith QArith Qround Bool Reals Lra.
 From Molli Require Import Common.Field3 Common.Field3R Common.HExpr Gen.Valence Gen.HaddExpr Model.Hadd Proofs.Hadd.
 From Molli Require Model.MolEdit Proofs.MolEdit.
 Import ListNotations.
